@@ -12,7 +12,9 @@ from vlib import *
 import gen_abi
 
 PID = 'C06'
-THEOREMS = ['C06_classifier', 'C06_struct_registers', 'C06_three_sites_agree', 'C06_nonvacuous']
+THEOREMS = ['C06_classifier', 'C06_struct_registers', 'C06_three_sites_agree', 'C06_nonvacuous',
+            # package vararg (Properties_C06_vararg.v): va_start, the register save area, va_arg deliver the k-th variadic argument
+            'C06_vararg_scalars_delivered', 'C06_vararg_va_start', 'C06_vararg_scalars_memstructs_delivered', 'C06_vararg_long_double_refuted', 'C06_vararg_nonvacuous']
 MODELRUN = os.path.join(VERIF, 'ocaml/modelrun')
 HDR = 'int printf(const char *, ...);\nvoid *memset(void *, int, unsigned long);\nvoid abort(void);\n'
 
@@ -93,7 +95,7 @@ def main():
         consts = gen_abi.gen(REPO, os.path.join(COQ, 'theories/Gen/AbiConsts.v'))
     except GenError as e:
         run.proof_broken.append('translator: ' + str(e))
-    run.check_proofs(deps=['theories/Model/Abi.vo', 'theories/Spec/AbiSpec.vo', 'theories/Gen/AbiConsts.vo'])
+    run.check_proofs(deps=['theories/Model/Abi.vo', 'theories/Spec/AbiSpec.vo', 'theories/Gen/AbiConsts.vo'], extra=['vararg'])
     NCORPUS = run_corpus(run, PID, src)          # minimised past failures first
     rc, o, e = sh([os.path.join(VERIF, 'ocaml/build.sh')], timeout=900)
     if rc != 0:
@@ -344,9 +346,14 @@ extern unsigned long last_hash; extern int misaligned;
         if m:
             run.violation(dict(kind='callee-saved-register-used', line=m.group(0).strip()), dict(area='abi-callee-saved'))
     samples.append({'signature': '%s f(%s)' % (cases[0][2], ', '.join(ct for ct, _ in cases[0][1])), 'model_placement': places[cases[0][0]]})
+    # ---------------- tie of package vararg: variadic signatures in three compiler pairings + prologue text ----------------
+    tie_dist = {}; tie_e = tie_n = 0
+    if not os.environ.get('VERIF_SKIP_PROOFS'):
+        tie_e, tie_n, tie_dist, tie_samples = run_tie(run, 'vararg', src, 150 if run.quick() else 1500, 'abi')
     cov = dict(evaluations=evals, distinct_nontrivial=len(nontriv),
                rule='random signatures (1-14 parameters; modes driving GP exhaustion, SSE exhaustion, mixed) over 13 scalar types, 27 struct and 3 union shapes (INTEGER, SSE, mixed eightbytes, arrays, nesting, > 16 bytes), 40 return types, executed in the pairings chibicc->chibicc, chibicc->gcc, gcc->chibicc with an argument hash, return-value hash and an assembly alignment probe; prologue register stores of every chibicc callee compared with the proved placement; non-trivial = at least 6 parameters',
                samples=samples, traces_validated_against_impl=prolog_checked, pairings=list('%s->%s' % k for k in pair_results))
+    cov['rule'] = cov.get('rule', '') + ' (e) package vararg: random variadic signatures (0-8 named parameters over int / long / double / long double / small and large structs) and variadic actuals, in the pairings chibicc->chibicc, gcc->chibicc, chibicc->gcc: values read by va_arg = the actuals; gp_offset / fp_offset / overflow_arg_area and the register-save stores in the -S prologue = the Coq model'; cov['tie_vararg'] = tie_dist; cov['evaluations'] = cov.get('evaluations', 0) + tie_e; cov['distinct_nontrivial'] = cov.get('distinct_nontrivial', 0) + tie_n
     return run.finish(cov,
         ['gcc 12 -O1 is the ABI-conforming other compiler; variadic functions and va_arg are exercised by the bundled tests only (not generated here)',
          'structs are naturally aligned (no packed/aligned attributes) in generated signatures'],
